@@ -35,7 +35,8 @@ func devMain(args []string) {
 	verbose := fs.Bool("v", false, "verbose")
 	showWrites := fs.String("writes", "", "print the inferred write set of functions whose name contains this")
 	fs.Parse(args)
-	eng, err := Load(*repo, strings.Split(*pkgs, ","))
+	_ = pkgs
+	eng, err := Load(*repo, []string{"./..."})
 	if err != nil {
 		fmt.Fprintln(os.Stderr, "load:", err)
 		os.Exit(2)
@@ -76,6 +77,17 @@ func devMain(args []string) {
 		if *only != "" && !strings.Contains(k, *only) {
 			continue
 		}
+		if *pkgs != "./..." {
+			hit := false
+			for _, p := range strings.Split(*pkgs, ",") {
+				if strings.Contains(k, modPath+strings.TrimPrefix(p, ".")+".") {
+					hit = true
+				}
+			}
+			if !hit {
+				continue
+			}
+		}
 		fc := eng.specs.Funcs[k]
 		if fc.Trusted || fc.Inline {
 			continue
@@ -97,15 +109,35 @@ func devMain(args []string) {
 			}
 			eng.SolveAll(rep.Obligations, axioms)
 			ok, bad := 0, 0
+			cv := coverVerdicts(rep.Obligations)
+			ncover := 0
 			for _, o := range rep.Obligations {
+				if o.Cover {
+					continue
+				}
 				if o.Result.Status == "unsat" {
 					ok++
 				} else {
 					bad++
 				}
 			}
-			fmt.Printf("%s: %d paths, %d obligations (+%d trivial safety), %d discharged, %d failed  [%.2fs]\n", rep.Func, rep.Paths, len(rep.Obligations), rep.Trivial, ok, bad, rep.Seconds)
+			var vac []string
+			for n, good := range cv {
+				ncover++
+				if !good {
+					vac = append(vac, n)
+				}
+			}
+			sort.Strings(vac)
+			for _, n := range vac {
+				fmt.Printf("   VACUOUS %s\n", n)
+				failed++
+			}
+			fmt.Printf("%s: %d paths, %d obligations (+%d trivial safety), %d discharged, %d failed, %d covers (%d vacuous)  [%.2fs]\n", rep.Func, rep.Paths, ok+bad, rep.Trivial, ok, bad, ncover, len(vac), rep.Seconds)
 			for _, o := range rep.Obligations {
+				if o.Cover {
+					continue
+				}
 				if o.Result.Status != "unsat" || *verbose {
 					fmt.Printf("   %-6s %-50s path=%s %s %.2fs %s\n", o.Result.Status, o.Name, o.Path, o.Result.Solver, o.Result.Seconds, o.Where)
 					if o.Result.Status != "unsat" {
@@ -128,6 +160,7 @@ func devMain(args []string) {
 			}
 		}
 	}
+	fmt.Printf("instantiate+print %.1fs, solver %.1fs (cumulative over workers)\n", statInst, statSolve)
 	if failed > 0 {
 		os.Exit(1)
 	}
